@@ -600,28 +600,35 @@ class SecopClient(ProxyClient):
                 connthread.join()
                 self._connthread = None
         self.disconnect_time = time.time()
+        # several threads (rx, tx, the user) may tear down the same connection, while an other
+        # thread connects again already: work on the objects found now and reset the
+        # attributes only when they still belong to this connection
+        io, txq = self.io, self.txq
         try:  # make sure txq does not block
-            while not self.txq.empty():
-                entry = self.txq.get(False)
+            while not txq.empty():
+                entry = txq.get(False)
                 if entry:
                     # release the caller: the request will not be transmitted any more
                     entry[1].set()
         except Exception:
             pass
-        if self.io:
-            self.io.shutdown()
+        if io:
+            io.shutdown()
         # the threads reset these attributes themselves when they end: use local references
         txthread, rxthread = self._txthread, self._rxthread
         if txthread:
-            self.txq.put(None)  # shutdown marker
+            txq.put(None)  # shutdown marker
             txthread.join()
-            self._txthread = None
+            if self._txthread is txthread:
+                self._txthread = None
         if rxthread:
             rxthread.join()
-            self._rxthread = None
-        if self.io:
-            self.io.disconnect()
-        self.io = None
+            if self._rxthread is rxthread:
+                self._rxthread = None
+        if io:
+            io.disconnect()
+        if self.io is io:
+            self.io = None
         # abort pending requests early
         try:  # avoid race condition
             while self.active_requests:
